@@ -69,6 +69,7 @@ func (s *State) clone() *State {
 // ---------- Exec: one verification run over one function ----------
 
 type Exec struct {
+	assumeRequires bool // option clausesonly
 	P        *Program
 	C        *Contracts
 	root     *ssa.Function
